@@ -368,72 +368,70 @@ func checkC20(c *Ctx, r *Report) {
 
 	// ---- R3
 	for _, f := range c.FuncsNamed(apiPkg + ".WrapHandler") {
+		if len(f.Params) < 3 {
+			r.Undecided("C20.R3", "WrapHandler signature", c.Pos(f.Pos()), "expected (cfg, methodFunc, preRunHook)")
+			continue
+		}
+		hookName := f.Params[2].Name()
 		for _, cl := range f.AnonFuncs {
-			var hookCall, mfCall *ssa.Call
+			// the endpoint invocation: a call of a value of type apitypes.MethodFunc
+			var mfCall *ssa.Call
 			eachInstr(cl, func(in ssa.Instruction) {
 				call, ok := in.(*ssa.Call)
-				if !ok || call.Call.IsInvoke() {
+				if !ok || call.Call.IsInvoke() || mfType == nil {
 					return
 				}
-				root := resolveFree(call.Call.Value)
-				if fv, ok := root.(*ssa.FreeVar); ok {
-					switch fv.Name() {
-					case "preRunHook":
-						hookCall = call
-					case "methodFunc":
-						mfCall = call
-					}
+				if types.Identical(call.Call.Value.Type(), mfType) {
+					mfCall = call
 				}
 			})
 			key := "WrapHandler closure: endpoint call gated by hook"
-			if hookCall == nil || mfCall == nil {
-				r.Fail("C20.R3", key, c.Pos(cl.Pos()), "hook call or endpoint call not found in WrapHandler's closure")
+			if mfCall == nil {
+				r.Fail("C20.R3", key, c.Pos(cl.Pos()), "the endpoint function is not invoked in WrapHandler's closure")
 				continue
 			}
-			errv := extractOf(hookCall, 1)
-			if errv == nil {
-				r.Fail("C20.R3", key, c.InstrPos(hookCall), "the hook's error result is discarded")
+			bs := &boolSummer{li: li}
+			paths, ok := bs.pathsTo(cl, mfCall)
+			if !ok || len(paths) == 0 {
+				r.Undecided("C20.R3", key, c.InstrPos(mfCall), "paths to the endpoint call could not be summarised")
 				continue
 			}
-			// With err != nil assumed, the endpoint call must be unreachable from the hook call.
-			reach := reachableInstr(hookCall, mfCall, pruneNil(cl, errv, false))
-			// And the only way to skip the hook is hook == nil, which R2 excludes.
-			r.Check(!reach, "C20.R3", key, c.InstrPos(mfCall), "no path from a hook error to the endpoint function", "the endpoint function is reachable although the pre-run hook returned an error (401 not enforced)")
+			var bad []string
+			for _, p := range paths {
+				okPath := false
+				for a, v := range p.cond {
+					isHook := strings.Contains(a, hookName)
+					if !isHook {
+						continue
+					}
+					// hook == nil  |  hook(ctx)#1 == nil
+					if strings.HasSuffix(a, "==nil") && v {
+						okPath = true
+					}
+				}
+				if !okPath {
+					bad = append(bad, p.cond.String())
+				}
+			}
+			r.Check(len(bad) == 0, "C20.R3", key, c.InstrPos(mfCall), fmt.Sprintf("all %d paths to the endpoint function pass 'hook == nil' or 'hook error == nil' (helpers expanded)", len(paths)), "the endpoint function is reachable although the pre-run hook returned an error (401 not enforced) under: "+strings.Join(uniq(bad), " | "))
 		}
 	}
 	for _, f := range c.FuncsNamed(apiPkg + ".EnsureAllowed") {
-		var ra, ia ssa.Value
-		eachInstr(f, func(in ssa.Instruction) {
-			switch x := in.(type) {
-			case *ssa.Field:
-				if fv, _, ok := fieldOf(x); ok && fv.Name() == "RequiresAuth" {
-					ra = x
-				}
-			case *ssa.UnOp:
-				if x.Op == token.MUL {
-					if fv, _, ok := fieldOf(x.X); ok && fv.Name() == "RequiresAuth" {
-						ra = x
-					}
-				}
-			case *ssa.Call:
-				if strings.HasSuffix(calleeName(x), "apitypes.Context).IsAuthenticated") {
-					ia = x
-				}
+		bs := &boolSummer{li: li}
+		classify := func(a string) string {
+			switch {
+			case strings.HasSuffix(a, ".RequiresAuth"):
+				return "requiresAuth"
+			case strings.HasPrefix(a, "IsAuthenticated("):
+				return "authed"
 			}
+			return ""
+		}
+		ok, detail, n := bs.checkTable(f, 1, classify, func(v map[string]bool) (bool, bool) {
+			return !v["requiresAuth"] || v["authed"], true
 		})
-		n := 0
-		eachInstr(f, func(in ssa.Instruction) {
-			ret, ok := in.(*ssa.Return)
-			if !ok || len(ret.Results) != 2 || isRecoverReturn(ret) || !isNilConst(retVals(ret)[1]) {
-				return
-			}
-			n++
-			key := fmt.Sprintf("EnsureAllowed: nil-error return #%d", n)
-			ok1 := ra != nil && guardedByTruth(f, ret, ra, false)
-			ok2 := ia != nil && guardedByTruth(f, ret, ia, true)
-			r.Check(ok1 || ok2, "C20.R3", key, c.InstrPos(ret), "returned only when !RequiresAuth or IsAuthenticated()", "EnsureAllowed can return nil for a route that requires auth without a session being present")
-		})
-		r.Floor("C20.R3", n, 1, "nil-error returns of EnsureAllowed")
+		r.Check(ok, "C20.R3", "EnsureAllowed returns nil iff !RequiresAuth or IsAuthenticated", c.Pos(f.Pos()), detail, "EnsureAllowed's nil-error result is not exactly '!RequiresAuth || IsAuthenticated()': "+detail)
+		r.Floor("C20.R3", n, 4, "rows of EnsureAllowed's truth table")
 	}
 	for _, f := range c.FuncsNamed("(*" + apitypesPkg + ".Context).IsAuthenticated") {
 		ok := false
